@@ -494,9 +494,9 @@ func ruleTokens(c *Ctx) {
 			}
 		}
 	}
-	fn := c.fn("input/ast", "(*LexScanner).ScanFunc")
+	fn := c.fn("input/ast", "LexScanner.ScanFunc")
 	if fn == nil {
-		c.missing("input/ast.(*LexScanner).ScanFunc")
+		c.missing("input/ast.LexScanner.ScanFunc")
 		return
 	}
 	produced := map[string]bool{}
@@ -535,9 +535,9 @@ func ruleLexMode(c *Ctx) {
 		return
 	}
 	_, byVal := c.tokenConsts(g)
-	fn := c.fn("input/ast", "(*LexScanner).ScanFunc")
+	fn := c.fn("input/ast", "LexScanner.ScanFunc")
 	if fn == nil {
-		c.missing("input/ast.(*LexScanner).ScanFunc")
+		c.missing("input/ast.LexScanner.ScanFunc")
 		return
 	}
 	name := fname(fn)
@@ -564,7 +564,7 @@ func ruleLexMode(c *Ctx) {
 	c.check(good, name+"|whitespace", c.pos(fn.Pos()), name, "DiscardWhile(unicode.IsSpace) precedes every token decision", "leading white space is no longer discarded before every token: spaces, tabs and newlines between tokens change the result")
 	// mode setters before their tokens
 	setterBefore := func(e tokenEmit, setter string, val bool) bool {
-		for _, ci := range callsTo(fn, "input/ast.(*LexScanner)."+setter) {
+		for _, ci := range callsTo(fn, "input/ast.LexScanner."+setter) {
 			if b, ok := constBool(ci.Common().Args[1]); ok && b == val && ci.Block() == e.instr.Block() && dominatesInstr(ci, e.instr) {
 				return true
 			}
@@ -718,7 +718,7 @@ func ruleLexMode(c *Ctx) {
 		}
 	}
 	// setters store their argument
-	for _, s := range []struct{ fn, field string }{{"(*LexScanner).SetExpectSymbol", "expectSymbol"}, {"(*LexScanner).SetExpectMetadata", "expectMetadata"}} {
+	for _, s := range []struct{ fn, field string }{{"LexScanner.SetExpectSymbol", "expectSymbol"}, {"LexScanner.SetExpectMetadata", "expectMetadata"}} {
 		sf := c.fn("input/ast", s.fn)
 		if sf == nil {
 			c.missing("input/ast." + s.fn)
@@ -1067,9 +1067,9 @@ func normaliseAction(s string) string {
 // CONVORDER
 
 func ruleConvOrder(c *Ctx) {
-	fn := c.fn("astconv", "(*ASTConverter).Convert")
+	fn := c.fn("astconv", "ASTConverter.Convert")
 	if fn == nil {
-		c.missing("astconv.(*ASTConverter).Convert")
+		c.missing("astconv.ASTConverter.Convert")
 		return
 	}
 	name := fname(fn)
@@ -1082,7 +1082,7 @@ func ruleConvOrder(c *Ctx) {
 			mods = append(mods, ci)
 		case cc.IsInvoke() && typeName(cc.Value.Type()) == "astconv.ChordConverter" && cc.Method.Name() == "Convert":
 			convs = append(convs, ci)
-		case calleeName(cc) == "astconv.(*ASTConverter).changeScale":
+		case calleeName(cc) == "astconv.ASTConverter.changeScale":
 			scales = append(scales, ci)
 		}
 	}
@@ -1129,9 +1129,9 @@ func ruleConvOrder(c *Ctx) {
 	sort.Strings(problems)
 	c.check(len(problems) == 0, name, c.pos(fn.Pos()), name, "Modify -> changeScale -> chord conversion, in both clauses, errors returned", name+": "+strings.Join(uniq(problems), "; "))
 
-	cs := c.fn("astconv", "(*ASTConverter).changeScale")
+	cs := c.fn("astconv", "ASTConverter.changeScale")
 	if cs == nil {
-		c.missing("astconv.(*ASTConverter).changeScale")
+		c.missing("astconv.ASTConverter.changeScale")
 		return
 	}
 	c.site(1)
@@ -1165,7 +1165,7 @@ func ruleConvOrder(c *Ctx) {
 		}
 	}
 	c.check(problem == "", fname(cs), c.pos(cs.Pos()), fname(cs), "NewScale(*v.Key) -> ChangeScale(scale), error returned", fname(cs)+": "+problem)
-	if f := c.fn("astconv", "(*SyllableChordConverter).ChangeScale"); f != nil {
+	if f := c.fn("astconv", "SyllableChordConverter.ChangeScale"); f != nil {
 		c.site(1)
 		okSet := false
 		allInstrs(f, func(in ssa.Instruction) {
@@ -1180,7 +1180,7 @@ func ruleConvOrder(c *Ctx) {
 		_, isPtr := f.Signature.Recv().Type().(*types.Pointer)
 		c.check(isPtr, fname(f)+"|receiver", c.pos(f.Pos()), fname(f), "pointer receiver: the change persists", "ChangeScale has a value receiver: the new scale is stored in a copy and the next chord is still read in the old key")
 	} else {
-		c.missing("astconv.(*SyllableChordConverter).ChangeScale")
+		c.missing("astconv.SyllableChordConverter.ChangeScale")
 	}
 }
 
